@@ -303,8 +303,14 @@ def mkStruct (path : String) (bl : BL) (nullable : Bool) : R B :=
   if hasDup bl.names then fail "Duplicate field"
   else .ok (.struct path 0 (newValidity nullable) bl (List.replicate bl.length none) 0 (List.replicate bl.length false))
 
+/-- integer data types (the key types of an Arrow dictionary; `build_builder` refuses any other key type) -/
+def isIntDT : DataType → Bool
+  | .int8 | .int16 | .int32 | .int64 | .uint8 | .uint16 | .uint32 | .uint64 => true
+  | _ => false
+
 mutual
-/-- `build_builder` on the parts of a field -/
+/-- `build_builder` on the parts of a field.  (Map: exactly two entry children; Dictionary: integer key type — the
+repo fixes 095456f / 7359431; the pinned code ignored further entry children and accepted any key type.) -/
 def newDT (path : String) : DataType → Bool → Metadata → R B
   | .null, _, md =>
     if strategyOf md == some "UnknownVariant" then .ok (.unknownVariant path) else .ok (.null path 0)
@@ -355,7 +361,9 @@ def newDT (path : String) : DataType → Bool → Metadata → R B
     else do
       let el ← newB (path ++ "." ++ childName child.name) child
       pure (.fixedSizeList path (metaOfField child) n.toNat 0 (newValidity nullable) 0 el)
-  | .map (.mk ename (.struct (.cons kf (.cons vf _))) _ _) sorted, nullable, _ => do
+  | .map (.mk _ (.struct (.cons _ (.cons _ (.cons _ _)))) _ _) _, _, _ =>
+    fail "Map entries must have exactly two fields (keys and values)"
+  | .map (.mk ename (.struct (.cons kf (.cons vf .nil))) _ _) sorted, nullable, _ => do
     let kb ← newB (path ++ "." ++ childName ename ++ "." ++ childName kf.name) kf
     let vb ← newB (path ++ "." ++ childName ename ++ "." ++ childName vf.name) vf
     pure (.map path { entriesName := ename, sorted := sorted, keys := metaOfField kf, values := metaOfField vf }
@@ -366,10 +374,12 @@ def newDT (path : String) : DataType → Bool → Metadata → R B
   | .struct fs, nullable, _ => do
     let bl ← newFields path fs
     mkStruct path bl nullable
-  | .dictionary k v, nullable, _ => do
-    let kb ← newDT (path ++ ".key") k nullable []
-    let vb ← newDT (path ++ ".value") v false []
-    pure (.dictionary path kb vb [])
+  | .dictionary k v, nullable, _ =>
+    if isIntDT k then do
+      let kb ← newDT (path ++ ".key") k nullable []
+      let vb ← newDT (path ++ ".value") v false []
+      pure (.dictionary path kb vb [])
+    else ctx [("field", path)] (fail "Dictionary keys must be integers")
   | .union fs _, _, _ => do
     let bl ← newUnionFields path fs 0
     pure (.union path bl [] [] (List.replicate bl.length 0))
